@@ -306,6 +306,44 @@ example : ∃ d, build 4 Witness.syms Witness.bg Witness.mat = some d ∧
   obtain ⟨d, hb, hs, _⟩ := Witness.built
   exact ⟨d, hb, pvalue_mem_unit Witness.hyp hb hs (-10)⟩
 
+/-- `min_pvalue()` is the tail at `max_score`, and it is the least positive p-value: every p-value
+    is 0 or at least `min_pvalue()` (the `max_score` bookkeeping of the sf loop). -/
+theorem min_pvalue_least (hyp : Hyp R syms bg m) (h : build R syms bg m = some d) (hs : 0 < d.scale) :
+    d.minPvalue = prob syms bg m.length (dGe d.data d.maxScore) ∧
+    ∀ s, d.pvalue s = 0 ∨ d.minPvalue ≤ d.pvalue s := by
+  have F := build_facts hyp h hs
+  have hmx0 := F.max_nonneg
+  have hmx1 := F.max_lt
+  have hcast : ((d.maxScore.toNat : Nat) : Int) = d.maxScore := by omega
+  have hmp : d.minPvalue = prob syms bg m.length (dGe d.data d.maxScore) := by
+    unfold Dist.minPvalue
+    rw [F.sf d.maxScore.toNat (by omega), hcast]
+  refine ⟨hmp, fun s => ?_⟩
+  rw [pvalue_eq_tail hyp h hs, hmp]
+  generalize ratRound ((s - m.length * d.offset) * d.scale) = k0
+  by_cases hk : k0 ≤ d.maxScore
+  · right
+    exact prob_mono hyp.bg_nonneg _ _ _ (fun w _ => dGe_antitone d.data hk w)
+  · left
+    by_cases hbig : (d.sf.size : Int) ≤ k0
+    · apply prob_dGe_of_large F.wordBound
+      have := F.size
+      rw [this] at hbig; push_cast at hbig ⊢; omega
+    · have hk0 : ((k0.toNat : Nat) : Int) = k0 := by omega
+      have hlt : k0.toNat < d.sf.size := by omega
+      rcases F.max_tail with ⟨hz, hall⟩ | ⟨_, _, hall⟩
+      · have := hall k0.toNat (by omega) hlt
+        simp only [hk0] at this; exact this
+      · have := hall k0.toNat (by omega) hlt
+        simp only [hk0] at this; exact this
+
+example : ∃ d, build 4 Witness.syms Witness.bg Witness.mat = some d ∧ d.minPvalue = 1/16 ∧
+    ∀ s, d.pvalue s = 0 ∨ d.minPvalue ≤ d.pvalue s := by
+  obtain ⟨d, hb, hs, hsf, _, hmx, _⟩ := Witness.built
+  refine ⟨d, hb, ?_, (min_pvalue_least Witness.hyp hb hs).2⟩
+  unfold Dist.minPvalue
+  rw [hsf, hmx]; decide +kernel
+
 /-! ### (5) p-value → score → p-value never yields a larger p-value -/
 
 /-- exact `unscale`/`scale` round trip -/
